@@ -42,6 +42,10 @@ class Ctx:
 
     def var(self, name, state=None):
         st = state or self.cur
+        if name not in st.env:
+            # the contract names a local the function no longer has at this point: shape mismatch,
+            # verdict UNDECIDED (the bounded check decides), never a crash and never a violation
+            raise L.Unsupported('shape: the contract refers to local %r which the code does not define here' % name)
         v = st.env[name]
         return v.t
 
